@@ -260,6 +260,25 @@ func genSeq(t *rapid.T, c *Case) {
 		}
 		c.Ops = append(c.Ops, op)
 	}
+	// a reconfiguration the writable swap store has to refuse (new store not writable), with requests behind it
+	if w && c.Chain.K == "swap" && g.pct(60, "refusedswap") {
+		nw := g.seqChain(false)
+		if nw.K == "swap" {
+			nw = nw.Kids[0]
+		}
+		if writableSpec(nw) {
+			nw = &Node{K: "router", Kids: []*Node{nw}}
+		}
+		pos := g.rng(0, len(c.Ops), "refusedpos")
+		ops := append([]Op(nil), c.Ops[:pos]...)
+		ops = append(ops, Op{Op: "swap", New: nw})
+		ops = append(ops, c.Ops[pos:]...)
+		k := g.rng(1, 2, "afterrefused")
+		for i := 0; i < k; i++ {
+			ops = append(ops, Op{Op: pick(g, []string{"get", "has", "store"}, "afterop"), ID: g.rng(0, nIDs-1, "id")})
+		}
+		c.Ops = ops
+	}
 }
 
 func genCase(t *rapid.T) Case {
@@ -336,9 +355,10 @@ func runSeq(c Case, o *hx.Outcome) seqStats {
 	}()
 
 	ops := c.Ops
-	if len(ops) > 30 {
-		ops = ops[:30]
+	if len(ops) > 33 {
+		ops = ops[:33]
 	}
+	refusedBefore := false // a refused swap happened earlier in this history
 steps:
 	for si, op := range ops {
 		if op.ID < 0 || op.ID >= nIDs {
@@ -375,23 +395,56 @@ steps:
 			logf("%d put L%d id%d", si, leaves[mi].nid, op.ID)
 			continue
 		case "swap":
-			if top.kind != "swap" || op.New == nil || !op.New.sane() || op.New.K == "swap" ||
-				(writableSpec(top.kids[0].spec) && !writableSpec(op.New)) || (top.writable && !writableSpec(op.New)) {
+			if top.kind != "swap" || op.New == nil || !op.New.sane() || op.New.K == "swap" {
 				o.Class("swap-skipped")
 				continue
 			}
+			// a writable swap store takes only writable stores: "a writable store can only be updated
+			// with another writable one". A refused swap must leave the wrapped store as it was.
+			refuse := top.writable && !writableSpec(op.New)
 			nr := b.build(op.New, top)
 			nm := m.build(op.New)
-			old := top.kids[0]
+			oldLeaves := top.kids[0].leaves()
+			before := make([]int, len(oldLeaves))
+			for j, l := range oldLeaves {
+				before[j] = l.leaf.Count("close")
+			}
 			err := top.swapper.Swap(nr.st)
-			logf("%d swap -> %s: %v", si, op.New.shape(), err)
+			if selfBug == "refused-swap-closes" && refuse {
+				oldLeaves[0].leaf.Close()
+			}
+			logf("%d swap -> %s (refusal expected: %v): %v", si, op.New.shape(), refuse, err)
+			if refuse {
+				st.events["swap-refused"] = true
+				if err == nil {
+					o.Fail("C11:swap:refused-swap-accepted", "step %d: Swap(%s) on the writable swap store %s returned nil; a store that cannot be written must be refused\nhistory:\n  %s",
+						si, op.New.shape(), c.Chain.shape(), strings.Join(hist, "\n  "))
+					break steps
+				}
+				for j, l := range oldLeaves {
+					if n := l.leaf.Count("close") - before[j]; n > 0 {
+						o.Fail("C11:swap:refused-swap-closed-store", "step %d: Swap(%s) was refused (%v), yet leaf %s of the store that stays in use was closed %d time(s)\nhistory:\n  %s",
+							si, op.New.shape(), err, l.leaf.Name, n, strings.Join(hist, "\n  "))
+					}
+				}
+				refusedBefore = true
+				continue
+			}
 			if err != nil {
 				o.Fail("C11:swap:swap-failed", "step %d: Swap(%s) on %s returned %v", si, op.New.shape(), c.Chain.shape(), err)
 				break steps
 			}
+			// "replace the stores internally": the store that was swapped out is closed, once
+			for j, l := range oldLeaves {
+				switch n := l.leaf.Count("close") - before[j]; {
+				case n == 0:
+					o.Fail("C11:swap:old-store-not-closed", "step %d: after Swap(%s) leaf %s of the replaced store was not closed\nhistory:\n  %s", si, op.New.shape(), l.leaf.Name, strings.Join(hist, "\n  "))
+				case n > 1:
+					o.Fail("C11:swap:old-store-closed-twice", "step %d: Swap(%s) closed leaf %s of the replaced store %d times\nhistory:\n  %s", si, op.New.shape(), l.leaf.Name, n, strings.Join(hist, "\n  "))
+				}
+			}
 			top.kids[0], mtop.kids[0] = nr, nm
 			st.events["swap"] = true
-			_ = old
 			continue
 		case "get", "has", "store":
 		default:
@@ -400,6 +453,9 @@ steps:
 
 		// ---- an operation on the top of the chain
 		st.steps++
+		if refusedBefore {
+			st.events["request-after-refused-swap"] = true
+		}
 		b.rec.reset()
 		var got string
 		switch kind {
@@ -648,7 +704,14 @@ func run(c Case) (o hx.Outcome) {
 	}
 	sort.Strings(evs)
 	for _, e := range evs {
-		o.Class("ev:" + e)
+		switch e {
+		case "swap-refused":
+			o.Class("swap:refused")
+		case "request-after-refused-swap":
+			o.Class(e)
+		default:
+			o.Class("ev:" + e)
+		}
 	}
 	o.Nontrivial = st.events["failover-advance"] || st.events["cache-fill"] || st.events["cache-repair"]
 	o.Desc = map[string]any{"mode": "seq", "shape": shape, "ops": len(c.Ops), "steps": st.steps, "events": evs}
@@ -659,7 +722,7 @@ var spec = &hx.Spec[Case]{
 	ID:    "C11",
 	Level: "exploration",
 	Rule: "cases = (chain of Router[2..3]/Failover[2..3]/Cache[+repair]/Swap/Dedup over in-memory leaves incl. the shapes the CLI builds, 4 chunk IDs, " +
-		"per-leaf faults down / fail-at-call-k / invalid object) x (sequential history of <=30 get/has/store/swap/break/heal/corrupt steps compared step by step with a reference model, " +
+		"per-leaf faults down / fail-at-call-k / invalid object) x (sequential history of <=33 get/has/store/swap (incl. swaps a writable swap store has to refuse)/break/heal/corrupt steps compared step by step with a reference model, " +
 		"or a concurrent phase of 2..6 goroutines x 1..4 rounds against failover/swap chains with a controller swapping/breaking/healing and generated yields at failover.selected/swap.locked); " +
 		"plus, when the built command is available, CLI cases (3 in 512 quick / 1 in 32 thorough, and a fixed grid of 40): desync extract / cat / chunk-server --store-file + SIGHUP given 1..3 -s entries " +
 		"(directory, harness HTTP chunk server, raw file server, failover group a|b of 2..3) and an optional -c cache (directory or writable HTTP store) with --cache-repair default/true/false, per member absent/valid/invalid objects and down = connection refused / always 500; " +
@@ -678,7 +741,7 @@ var spec = &hx.Spec[Case]{
 	Required: []string{"mode:seq", "mode:conc", "shape:cli", "node:router", "node:failover", "node:cache", "node:swap", "node:dedup",
 		"fault:down", "fault:fail-at-k", "fault:invalid",
 		"ev:failover-advance", "ev:failover-exhausted", "ev:failover-missing-as-is", "ev:cache-fill", "ev:cache-hit", "ev:cache-repair", "ev:cache-invalid-fails",
-		"ev:router-fallthrough", "ev:router-abort", "ev:swap",
+		"ev:router-fallthrough", "ev:router-abort", "ev:swap", "swap:refused", "request-after-refused-swap",
 		"conc:failover-advance", "conc:swap-with-request-in-flight", "conc:globally-missing-id", "conc:request-with-expectation"},
 	Gen:      genCase,
 	Run:      run,
